@@ -194,7 +194,46 @@ def scan_time_readers(repo: Path) -> dict[str, list[str]]:
             hits |= {f"param:{p}" for p in params & TIME_PARAMS}
             if hits:
                 found[f"{rel}:{qn}"] = sorted(hits)
+        _attribute_helpers(rel, tree, found, base)
     return found
+
+
+def _attribute_helpers(rel: str, tree: ast.Module, found: dict, base: Path) -> None:
+    """A module-level helper that reads the clock, is not classified itself, is not imported by another models module and
+    is called only from functions of its own module: its reads belong to its callers (a block extracted from a model
+    function is still that model's code; the increment expression follows the call).  Repeated until nothing moves, so
+    that helpers of helpers are attributed too.  A helper nobody calls, or one used elsewhere, stays a reader of its
+    own and must be classified (fail closed)."""
+    funcs = dict(_functions(tree))
+    moved = True
+    while moved:
+        moved = False
+        for key in [k for k in found if k.startswith(rel + ":") and k not in CLASSIFICATION]:
+            qn = key.split(":", 1)[1]
+            if "." in qn or qn not in funcs:
+                continue
+            callers = [c for c, fn in funcs.items() if c != qn and "." not in c and any(
+                isinstance(n, ast.Call) and isinstance(n.func, ast.Name) and n.func.id == qn for n in ast.walk(fn))]
+            other_refs = sum(1 for n in ast.walk(tree) if isinstance(n, ast.Name) and n.id == qn) - sum(
+                1 for c in callers for n in ast.walk(funcs[c]) if isinstance(n, ast.Name) and n.id == qn)
+            self_refs = sum(1 for n in ast.walk(funcs[qn]) if isinstance(n, ast.Name) and n.id == qn)
+            if not callers or other_refs - self_refs > 0:
+                continue                      # referenced at module level / from a method / as a value: not followed
+            used_elsewhere = False
+            for f in base.rglob("*.py"):
+                if f.relative_to(base.parent.parent).as_posix() != rel:
+                    txt = f.read_text()
+                    if qn in txt and any(isinstance(n, (ast.ImportFrom, ast.Import)) and any(a.name.split(".")[-1] == qn for a in n.names)
+                                         for n in ast.walk(ast.parse(txt))):
+                        used_elsewhere = True
+                        break
+            if used_elsewhere:
+                continue
+            hits = [h for h in found.pop(key) if not h.startswith("param:")]
+            for c in callers:
+                ck = f"{rel}:{c}"
+                found[ck] = sorted(set(found.get(ck, [])) | set(hits))
+            moved = True
 
 
 # ------------------------------------------------------------------------------------------ 2. symbolic values
@@ -313,6 +352,7 @@ class Sym:
                 if isinstance(n, ast.FunctionDef):
                     self.index.setdefault(n.name, []).append((rel, n))
         self.call_names: dict[str, str] = {}
+        self._consts: dict[str, dict] = {}
         self.forced: dict[int, tuple] = {}
         self.mode = None      # None: rate models (linear atom = detector.time_step); else dict(src=bucket, sink=bucket)
 
@@ -343,11 +383,34 @@ class Sym:
             self.call_names[key] = f"call:{fname}" + (f"#{n + 1}" if n else "")
         return var(self.call_names[key])
 
-    def subst(self, node: ast.AST, psub):
+    def module_consts(self, rel) -> dict:
+        """NAME = <literal> assigned exactly once at module level (and nowhere else in the module): a constant moved out
+        of a function is read as the literal it names."""
+        if rel not in self._consts:
+            tree, out, count = self.trees[rel], {}, {}
+            for n in ast.walk(tree):
+                if isinstance(n, ast.Name) and isinstance(n.ctx, (ast.Store, ast.Del)):
+                    count[n.id] = count.get(n.id, 0) + 1
+                elif isinstance(n, (ast.arg,)):
+                    count[n.arg] = count.get(n.arg, 0) + 1
+            for st in tree.body:
+                tg = st.targets[0] if isinstance(st, ast.Assign) and len(st.targets) == 1 else (st.target if isinstance(st, ast.AnnAssign) else None)
+                if isinstance(tg, ast.Name) and getattr(st, "value", None) is not None and count.get(tg.id) == 1:
+                    try:
+                        v = ast.literal_eval(st.value)
+                    except (ValueError, SyntaxError, TypeError):
+                        continue
+                    if isinstance(v, (int, float, str, bool, tuple, frozenset)) or v is None:
+                        out[tg.id] = st.value
+            self._consts[rel] = out
+        return self._consts[rel]
+
+    def subst(self, node: ast.AST, psub, rel=None, local_names=()):
         """node rewritten over the top-level function's parameters, or None if it mentions anything else."""
         import copy
 
         ok = True
+        consts = self.module_consts(rel) if rel is not None else {}
 
         class T(ast.NodeTransformer):
             def visit_Name(s, n):  # noqa: N802, N805
@@ -356,6 +419,8 @@ class Sym:
                     return copy.deepcopy(psub[n.id])
                 if n.id in SAFE_GLOBALS:
                     return n
+                if n.id in consts and n.id not in local_names and n.id not in psub:
+                    return copy.deepcopy(consts[n.id])
                 ok = False
                 return n
 
@@ -544,7 +609,7 @@ class Sym:
         callee = Frame(rel2, fn, fr.depth + 1)
         for nm in names + kwonly:
             if nm in arg_nodes:
-                psub[nm] = self.subst(arg_nodes[nm], p.psub)
+                psub[nm] = self.subst(arg_nodes[nm], p.psub, fr.rel, p.env)
             else:
                 d = pos_defaults.get(nm, kw_defaults.get(nm))
                 if d is None:
@@ -552,7 +617,7 @@ class Sym:
                 env[nm] = self.ev(callee, Path_({}, {}), d)
                 psub[nm] = d if isinstance(d, ast.Constant) else None
         sub = Path_(env, psub, list(p.conds), list(p.sinks))
-        outs = [o for o in self.block(callee, [sub], body_of(fn)) if not o.raised]
+        outs = merge_paths([o for o in self.block(callee, [sub], body_of(fn)) if not o.raised], f"{rel2}:{fn.name}", True)
         if not outs:
             self.fail(fr.rel, call, "helper raises on every path")
         results = [(o.conds, o.sinks, o.ret if o.ret is not None else var("const:None")) for o in outs]
@@ -664,6 +729,19 @@ class Sym:
             if not isinstance(st.value, ast.Constant):
                 self.ev(fr, p, st.value)      # a call for its side effect (warnings.warn, header.update, ...)
             return [p]
+        if isinstance(st, (ast.Assign, ast.AnnAssign)) and isinstance(st.value, ast.IfExp):
+            # `x = a if c else b` == `if c: x = a else: x = b`
+            tg = st.targets if isinstance(st, ast.Assign) else [st.target]
+            mk = lambda v: [ast.fix_missing_locations(ast.copy_location(ast.Assign(targets=tg, value=v), st))]  # noqa: E731
+            fake = ast.copy_location(ast.If(test=st.value.test, body=mk(st.value.body), orelse=mk(st.value.orelse)), st)
+            return self.if_stmt(fr, p, fake)
+        if isinstance(st, ast.Match):
+            from .c17_guards import match_as_if
+
+            chain = match_as_if(st)
+            if chain is None:
+                self.fail(rel, st, "match statement with patterns other than literals")
+            return self.block(fr, [p], chain)
         if isinstance(st, ast.Assign):
             v = self.ev(fr, p, st.value)
             for t in st.targets:
@@ -711,14 +789,20 @@ class Sym:
         self.fail(rel, st, "statement shape not accepted")
 
     def if_stmt(self, fr: Frame, p: Path_, st: ast.If):
-        cond = self.subst(st.test, p.psub)
+        cond = self.subst(st.test, p.psub, fr.rel, p.env)
+        body, orelse = st.body, st.orelse
+        while isinstance(cond, ast.UnaryOp) and isinstance(cond.op, ast.Not):
+            cond, body, orelse = cond.operand, orelse, body      # `if not c: A else: B` == `if c: B else: A`
+        cond = fold_const(cond)
         if isinstance(cond, ast.Constant):               # an option fixed by the caller (usaf -> load_image)
-            return self.block(fr, [p], st.body if cond.value else st.orelse)
+            return self.block(fr, [p], body if cond.value else orelse)
         if cond is not None:
             a, b = p, p.fork()
             a.conds.append(ast.unparse(cond))
             b.conds.append(ast.unparse(ast.UnaryOp(op=ast.Not(), operand=cond)))
-            return self.block(fr, [a], st.body) + self.block(fr, [b], st.orelse)
+            if body is st.body:
+                return self.block(fr, [a], body) + self.block(fr, [b], orelse)
+            return self.block(fr, [b], orelse) + self.block(fr, [a], body)       # rows in source order
         if self.only_raises(st.body):
             return self.block(fr, [p], st.orelse)        # a guard on something else than the options
         # a branch on a run-time value: followed on both sides; it must not reach a bucket, return or raise, and
@@ -727,8 +811,19 @@ class Sym:
         tv = bad("state", "detector") if tv in (DET, SRC) else tv
         outs = self.block(fr, [p.fork()], st.body) + self.block(fr, [p.fork()], st.orelse)
         for o in outs:
-            if o.raised or o.done or o.sinks != p.sinks or o.conds != p.conds:
-                self.fail(fr.rel, st, "branch on something else than the model's options reaches a bucket / returns")
+            if not o.raised and (o.sinks != p.sinks or o.conds != p.conds):
+                self.fail(fr.rel, st, "branch on something else than the model's options reaches a bucket")
+        # guard clause / early return on a run-time value == the rest of the function nested in the other branch: a side
+        # that leaves the function stays a path of its own (a refusal is dropped, a `return` is kept with what has
+        # reached the buckets so far); `merge_paths` at the end of the function demands that all paths under the same
+        # option conditions added the same expressions - otherwise the run-time value decides the increment: fail closed
+        left = [o for o in outs if o.done and not o.raised]
+        outs = [o for o in outs if not (o.raised or o.done)]
+        if not outs:
+            if not left:
+                p.raised = True
+                return [p]
+            return left
         changed = sorted({k for o in outs for k, v in o.env.items() if p.env.get(k) != v})
         for k in changed:
             vals = [o.env.get(k, p.env.get(k, var("global:" + k))) for o in outs]
@@ -744,7 +839,38 @@ class Sym:
             else:
                 p.env[k] = worst_bad([tv] + vals, "branch:" + k)
             p.psub.pop(k, None)
-        return [p]
+        return [p] + left
+
+
+def fold_const(cond):
+    """A test made of literals only (an option fixed by the caller, after substitution) -> its value."""
+    if cond is None or isinstance(cond, ast.Constant):
+        return cond
+    if all(isinstance(n, (ast.Constant, ast.BoolOp, ast.UnaryOp, ast.Compare, ast.boolop, ast.unaryop, ast.cmpop,
+                          ast.Tuple, ast.List, ast.Load, ast.IfExp)) for n in ast.walk(cond)):
+        try:
+            v = eval(compile(ast.fix_missing_locations(ast.Expression(body=cond)), "<fold>", "eval"), {"__builtins__": {}}, {})  # noqa: S307
+        except Exception:  # noqa: BLE001
+            return cond
+        return ast.Constant(value=bool(v))
+    return cond
+
+
+def merge_paths(outs, where, with_ret=False):
+    """Paths that differ only by run-time branches (same option conditions): one path if they agree on what reached the
+    buckets (and, inside a helper, on the value returned); otherwise a run-time value decides the increment."""
+    merged, seen = [], {}
+    for o in outs:
+        key = tuple(o.conds)
+        if key not in seen:
+            seen[key] = o
+            merged.append(o)
+            continue
+        q = seen[key]
+        if q.sinks != o.sinks or (with_ret and (q.ret if q.ret is not None else var("const:None")) != (o.ret if o.ret is not None else var("const:None"))):
+            raise TranslationError(f"{where}: under the options [{' & '.join(o.conds)}] a branch on a run-time value decides "
+                                   f"what is added to a bucket / returned (early return before the bucket is reached?)")
+    return merged
 
 
 def body_of(fn):
@@ -772,11 +898,9 @@ def model_rows(sym: Sym, rel: str, qn: str, fn) -> list[dict]:
         psub[nm] = ast.Name(id=nm, ctx=ast.Load())
     fr = Frame(rel, fn, 0)
     sym.call_names = {}
-    outs = sym.block(fr, [Path_(env, psub)], body_of(fn))
+    outs = merge_paths([o for o in sym.block(fr, [Path_(env, psub)], body_of(fn)) if not o.raised], f"{rel}:{qn}")
     rows = []
     for o in outs:
-        if o.raised:
-            continue
         if len(o.sinks) != 1:
             raise TranslationError(f"{rel}:{qn}: path [{' & '.join(o.conds)}] adds to {len(o.sinks)} buckets (expected 1)")
         kind, v = o.sinks[0]
@@ -838,105 +962,19 @@ def defaults_of(fn) -> dict:
 
 READOUT_FILE, READOUT_CLASS = "pyxel/exposure/readout.py", "Readout"
 
-_GUARD_SHAPES = {
-    "GFirstZero": {"T[0] == 0", "0 == T[0]", "T[0] == 0.0", "0.0 == T[0]", "not T[0]", "not T[0] != 0"},
-    "GStartGeFirst": {"S >= T[0]", "T[0] <= S", "not S < T[0]", "not T[0] > S"},
-    "GNotIncreasing": {"not np.all(np.diff(T) > 0)", "not (np.diff(T) > 0).all()", "np.any(np.diff(T) <= 0)",
-                       "(np.diff(T) <= 0).any()", "not np.all(T[1:] > T[:-1])", "np.any(T[1:] <= T[:-1])",
-                       "not np.all(np.diff(T) > 0.0)", "np.any(np.diff(T) <= 0.0)"},
-}
-
-
 RP_FILE, RP_CLASS = "pyxel/detectors/readout_properties.py", "ReadoutProperties"
-# a refusal that can never fire on a schedule given as a flat list (the model's schedules are lists)
-_HARMLESS_GUARDS = {"T.ndim != 1", "np.ndim(T) != 1", "T.ndim > 1", "not T.ndim == 1"}
-
-
-def _norm_guard(test: ast.AST, aliases=()) -> str:
-    class T(ast.NodeTransformer):
-        def visit_Attribute(s, n):  # noqa: N802, N805
-            if isinstance(n.value, ast.Name) and n.value.id == "self" and n.attr in ("_times", "times"):
-                return ast.Name(id="T", ctx=ast.Load())
-            if isinstance(n.value, ast.Name) and n.value.id == "self" and n.attr in ("_start_time", "start_time"):
-                return ast.Name(id="S", ctx=ast.Load())
-            return s.generic_visit(n)
-
-        def visit_Name(s, n):  # noqa: N802, N805
-            if n.id in aliases:
-                return ast.Name(id="T", ctx=ast.Load())
-            return ast.Name(id="S", ctx=ast.Load()) if n.id == "start_time" else n
-
-    import copy
-    return ast.unparse(ast.fix_missing_locations(T().visit(copy.deepcopy(test))))
-
-
-def _ends_with_raise(body) -> bool:
-    return bool(body) and isinstance(body[-1], ast.Raise)
-
-
-def _chain(st: ast.If):
-    """[(test, body), ...], final else body (or [])."""
-    links = []
-    while True:
-        links.append((st.test, st.body))
-        if len(st.orelse) == 1 and isinstance(st.orelse[0], ast.If):
-            st = st.orelse[0]
-        else:
-            return links, st.orelse
-
-
-def _array_aliases(fn) -> set:
-    """`times` and the locals that hold it as an array (`times_1d = np.array(times, dtype=float)`)."""
-    out = {"times"}
-    for st in fn.body:
-        if isinstance(st, (ast.Assign, ast.AnnAssign)) and isinstance(st.value, ast.Call):
-            tg = st.targets[0] if isinstance(st, ast.Assign) else st.target
-            if isinstance(tg, ast.Name) and (dotted(st.value.func) or "").split(".")[-1] in ("array", "asarray", "asanyarray") \
-                    and st.value.args and isinstance(st.value.args[0], ast.Name) and st.value.args[0].id in out:
-                out.add(tg.id)
-    return out
 
 
 def readout_guards(repo: Path, file=None, cls=None, local_aliases=False) -> dict:
     """The refusals of Readout.__init__ (or, with file / cls, of the detector's ReadoutProperties.__init__, which
-    every run goes through again) that concern the schedule: which of the three guards are present, and whether
-    an empty `times` is refused before them.  Any other refusal that mentions the times / start time is a shape
-    this translator does not know: fail closed."""
-    from .common import body_no_doc, find_func
+    every run goes through again) that concern the schedule: which of the three guards are present on EVERY accepting
+    path of the constructor, and whether an empty `times` is refused.  Read by paths (translator/c17_guards.py): helper
+    calls followed, aliases substituted, guard clauses == if/elif chains, match == if/elif, inverted tests.  A test on the
+    times / start time that is not the passing side of a known refusal: fail closed."""
+    from . import c17_guards
 
-    READOUT_FILE, READOUT_CLASS = file or globals()["READOUT_FILE"], cls or globals()["READOUT_CLASS"]
-    tree = parse(repo, READOUT_FILE)
-    fn = find_func(tree, "__init__", cls=READOUT_CLASS)
-    aliases = _array_aliases(fn) if local_aliases else ()
-    guards, empty_refused = [], False
-    for st in body_no_doc(fn):
-        if not isinstance(st, ast.If):
-            continue
-        links, orelse = _chain(st)
-        tests = [_norm_guard(t, aliases) for t, _ in links]
-        mentions_schedule = any(("T" in {n.id for n in ast.walk(ast.parse(t, mode="eval")) if isinstance(n, ast.Name)}
-                                 or "S" in {n.id for n in ast.walk(ast.parse(t, mode="eval")) if isinstance(n, ast.Name)})
-                                for t in tests)
-        if not mentions_schedule:
-            # the chain that chooses where the times come from: an empty / missing `times` is refused when the
-            # `times` link is a truthiness test and the chain ends in a raise
-            names = [t for t in tests]
-            if "times" in names and _ends_with_raise(orelse):
-                empty_refused = True
-            continue
-        for (test, body), text in zip(links, tests):
-            if not _ends_with_raise(body):
-                raise TranslationError(f"{READOUT_FILE}:{test.lineno}: a branch on the readout times that does not raise: {text}")
-            if text in _HARMLESS_GUARDS:
-                continue
-            kind = next((k for k, shapes in _GUARD_SHAPES.items() if text in shapes), None)
-            if kind is None:
-                raise TranslationError(f"{READOUT_FILE}:{test.lineno}: readout guard of an unknown shape: {text}")
-            if kind not in guards:
-                guards.append(kind)
-        if orelse and not all(isinstance(x, (ast.Pass, ast.Expr)) for x in orelse):
-            raise TranslationError(f"{READOUT_FILE}:{st.lineno}: else-branch of a readout guard does something")
-    return dict(guards=guards, empty_refused=empty_refused)
+    r = c17_guards.readout_guards(Path(repo), file or READOUT_FILE, cls or READOUT_CLASS, bool(local_aliases))
+    return dict(guards=r["guards"], empty_refused=r["empty_refused"])
 
 
 # ------------------------------------------------------------------------------------------ rendering
